@@ -463,6 +463,9 @@ const (
 // do applies one operation to the model and to every driver and compares.
 // The returned result is the model's.
 func (w *world) do(op model.Op) (model.Result, int, *failure) {
+	if op.Blind {
+		return w.doBlind(op)
+	}
 	if ids := guardOp(op, w.m, w.cfg.V2); len(ids) > 0 {
 		for _, id := range ids {
 			stats.For(w.prop).Exclude(id)
@@ -481,6 +484,7 @@ func (w *world) do(op model.Op) (model.Result, int, *failure) {
 		// rejects it, nothing changes.
 		w.Ops = append(w.Ops, op)
 		w.steps++
+		accepted := false
 		for _, d := range w.ds {
 			before := d.Snapshot()
 			got := d.Apply(op)
@@ -488,12 +492,16 @@ func (w *world) do(op model.Op) (model.Result, int, *failure) {
 				return want, stepDone, newFail("runtime panic", "%s %s: %s", d.Name(), op.Kind, got.ErrText)
 			}
 			if got.Err == "" {
-				stats.For(w.prop).Class("speculative-request-accepted")
-				return want, stepDiverged, nil
+				accepted = true
+				continue
 			}
 			if after := d.Snapshot(); after != before {
 				return want, stepDone, newFail("failing request changed state", "%s %s (err %s, %s):\n--- before\n%s--- after\n%s", d.Name(), op.Kind, got.Err, want.WeakWhy, before, after)
 			}
+		}
+		if accepted {
+			stats.For(w.prop).Class("speculative-request-accepted")
+			return want, stepDiverged, nil
 		}
 		stats.For(w.prop).Class("speculative-request-rejected")
 		return want, stepRejected, nil
@@ -523,6 +531,41 @@ func (w *world) do(op model.Op) (model.Result, int, *failure) {
 	}
 	w.m = next
 	return want, stepDone, nil
+}
+
+// doBlind sends a request to every driver without consulting the reference
+// model. What is still decided: no runtime panic, and (C08) a data request
+// that fails leaves the complete internal snapshot unchanged. The result of
+// the first driver is returned.
+func (w *world) doBlind(op model.Op) (model.Result, int, *failure) {
+	w.Ops = append(w.Ops, op)
+	w.steps++
+	if pendingMode {
+		pending(w.prop, "history:"+w.prop, w.asCase())
+	}
+	var first model.Result
+	status := stepDone
+	for i, d := range w.ds {
+		if op.Kind == "BatchGet" && d.Name() == "v1" {
+			continue
+		}
+		before := d.Snapshot()
+		got := d.Apply(op)
+		if i == 0 {
+			first = got
+		}
+		if got.Err == model.ErrRuntimePanic {
+			return got, stepDone, newFail("runtime panic", "%s %s: %s", d.Name(), op.Kind, got.ErrText)
+		}
+		if got.Err != "" && isDataOp(op.Kind) {
+			status = stepRejected
+			if after := d.Snapshot(); after != before {
+				return got, stepDone, newFail("failing request changed state", "%s %s (err %s; state not followed by the reference model):\n--- before\n%s--- after\n%s", d.Name(), op.Kind, got.Err, before, after)
+			}
+		}
+	}
+	stats.For(w.prop).Class("blind-step")
+	return first, status, nil
 }
 
 // maybeCheck runs check() according to the world's check period.
